@@ -77,11 +77,18 @@ static void lw_note_width(void *q) { pthread_mutex_lock(&lw_mu);
 	pthread_mutex_unlock(&lw_mu); }
 
 // ------------------------------------------------------------------ the scenarios of c01_lanes.c, unchanged
+// the watchdog of c01_lanes.c leaves with _exit(3) when a scenario is stuck: the recording up to the stall is what one
+// wants then, so _exit is routed through a dump (the queues are reported as not quiescent: they are not)
+static const char *lw_dump_path = "/dev/null";
+static void lw_dump(const char *path);
+static void lw_exit(int code) { static _Atomic int once; if (!atomic_exchange(&once, 1)) lw_dump(lw_dump_path); _exit(code); }
 #define main lanes_main
 #define dv_install(seed, permille) lw_install(seed, permille)
+#define _exit(code) lw_exit(code)
 #include "c01_lanes.c"
 #undef main
 #undef dv_install
+#undef _exit
 
 // ------------------------------------------------------------------ more scenarios (suspend / resume / activate / apply / retarget)
 static _Atomic long x_ran; static void x_item(void *c) { (void)c; atomic_fetch_add(&x_ran, 1); atomic_fetch_add(&progress, 1); if ((atomic_load(&x_ran) & 15) == 0) sched_yield(); }
@@ -234,7 +241,6 @@ static void lw_dump(const char *path) {
 }
 
 // a crash of the library (DISPATCH_CLIENT_CRASH / DISPATCH_INTERNAL_CRASH are traps) still leaves the recording behind
-static const char *lw_dump_path = "/dev/null";
 static void lw_on_crash(int sig) { signal(sig, SIG_DFL); printf("FAIL C01 %s CRASH: the library trapped (signal %d)\n", cur_scn, sig); fflush(stdout);
 	done_all = 1; lw_dump(lw_dump_path); _exit(4); }
 
